@@ -210,6 +210,24 @@ def plan_C19(seed, run, engine, tier="quick", entry=None):
     ops = []
     k = G.gen_knobs(rng, solver, p, fi, gs, ample=(rng.random() < 0.6) and not kw)
     st, w0 = P._start(rng, prob)
+    dcol = (prob["data"].get("degen") or {}).get("col")
+    if st == "point" and dcol is not None and dcol < len(w0) and not prob["T"] and rng.random() < 0.7 \
+            and prob["family"]["datafit"] != "QuadraticSVC":
+        # the warm start puts mass on the degenerate column
+        w0 = list(w0)
+        if w0[dcol] == 0:
+            # (same convention as every generated start point: each coefficient moves the linear
+            # predictor by a moderate amount, whatever the scale of its column)
+            Xa_ = np.abs(np.asarray(prob["data"]["X"], dtype=float))
+            rms = np.sqrt((Xa_ ** 2).mean(axis=0))
+            moves = [abs(w0[j]) * rms[j] for j in range(min(p, Xa_.shape[1])) if w0[j] != 0 and rms[j] > 0]
+            move = (float(np.median(moves)) if moves else 1.0) * choice(rng, [0.3, 1.0, 3.0])
+            w0[dcol] = float(G.sig3(move / rms[dcol] if rms[dcol] > 0 else move, 4))
+            fam_ = prob["family"]
+            if fam_["pargs"].get("positive") or fam_["penalty"] in ("PositiveConstraint", "IndicatorBox"):
+                w0[dcol] = abs(w0[dcol])
+                if fam_["penalty"] == "IndicatorBox":
+                    w0[dcol] = min(w0[dcol], fam_["pargs"]["alpha"])
     ops.append(dict(op="solve", start=st, w0=w0, knobs=k, faults=G.gen_faults(rng, solver, 0.3),
                     storage=prob["storage"]))
     if rng.random() < 0.4:
@@ -221,6 +239,15 @@ def plan_C19(seed, run, engine, tier="quick", entry=None):
     Xa = np.abs(np.asarray(prob["data"]["X"], dtype=float))
     ya = np.abs(np.asarray(prob["data"]["y"], dtype=float))
     floor = 1e-13 * max(float(Xa.max(initial=0.0)), 1e-300) * max(float(ya.max(initial=0.0)), 1.0)
+    if st == "point" and solver in ("AndersonCD", "GroupBCD", "MultiTaskBCD", "GramCD") and rng.random() < 0.8 \
+            and not rest:
+        # degenerate structure under a warm start: the quiescent solve from the surviving buffers
+        # is judged against a cold start of the same problem (bounded liveness, C05 d)
+        kq = dict(tol=k["tol"], fit_intercept=k.get("fit_intercept", False))
+        for kk in ("p0", "ws_strategy", "use_acc", "greedy_cd"):
+            if kk in k:
+                kq[kk] = k[kk]
+        ops.append(dict(op="quiesce", knobs=kq, storage=prob["storage"], optimum=False))
     if rest and solver in ("AndersonCD", "MultiTaskBCD", "GramCD"):
         # "... never fails to terminate": coordinate descent with exact coordinate steps is
         # invariant under column scaling, so a blown-up column may not keep a well-conditioned
